@@ -524,3 +524,130 @@ func callsMacDecode(f *ssa.Function, depth int) bool {
 	}
 	return false
 }
+
+// ---- percode
+//
+// The byte/trimmed/segmented decoders take a translation function from
+// character codes to runes (Mac Roman for platform 1).  The translation is
+// not linear, so it has to be applied to every code separately: the key of
+// each entry stored into the result must come from a call of the translation
+// function made in the same loop iteration.
+func checkPerCode(w *World, r *Report) {
+	r.Rule("percode: in the cmap format decoders that take a code-to-rune function, the key of every entry stored into the resulting map is computed by a call of that function inside the innermost loop around the store (the translation is applied per code, not once to the first code of a range)")
+	n := 0
+	for _, fn := range w.LibFuncs() {
+		if !strings.HasSuffix(fnPkgPath(fn), "/cmap") || fn.Parent() != nil {
+			continue
+		}
+		var tr *ssa.Parameter
+		for _, par := range fn.Params {
+			if sig, ok := par.Type().Underlying().(*types.Signature); ok && sig.Params().Len() == 1 && sig.Results().Len() == 1 {
+				if b, ok := sig.Results().At(0).Type().Underlying().(*types.Basic); ok && b.Kind() == types.Int32 {
+					tr = par
+				}
+			}
+		}
+		if tr == nil {
+			continue
+		}
+		isTr := func(v ssa.Value) bool {
+			seen := map[ssa.Value]bool{}
+			var f func(v ssa.Value) bool
+			f = func(v ssa.Value) bool {
+				if seen[v] {
+					return false
+				}
+				seen[v] = true
+				switch x := v.(type) {
+				case *ssa.Parameter:
+					return x == tr
+				case *ssa.Phi:
+					for _, e := range x.Edges {
+						if f(e) {
+							return true
+						}
+					}
+				}
+				return false
+			}
+			return f(v)
+		}
+		loops := naturalLoops(fn)
+		for _, b := range fn.Blocks {
+			for _, in := range b.Instrs {
+				mu, ok := in.(*ssa.MapUpdate)
+				if !ok {
+					continue
+				}
+				var loop *natLoop
+				for _, l := range loops {
+					if l.body[b] && (loop == nil || len(l.body) < len(loop.body)) {
+						loop = l
+					}
+				}
+				if loop == nil {
+					continue
+				}
+				// a decoder that refuses a translation function (the store is only
+				// reached when the parameter is nil) has nothing to translate
+				refused := false
+				for _, g := range guardsOf(b) {
+					c, ok := g.cond.(*ssa.BinOp)
+					if !ok || (c.Op != token.EQL && c.Op != token.NEQ) {
+						continue
+					}
+					if (c.X == ssa.Value(tr) || c.Y == ssa.Value(tr)) && (c.Op == token.EQL) == g.then {
+						refused = true
+					}
+				}
+				if refused {
+					continue
+				}
+				n++
+				key := r.MkKey("percode", fnName(fn), "key of a stored entry")
+				// backward slice of the key through arithmetic and conversions
+				found, hoisted := false, false
+				seen := map[ssa.Value]bool{}
+				var walk func(v ssa.Value, d int)
+				walk = func(v ssa.Value, d int) {
+					if d > 8 || seen[v] {
+						return
+					}
+					seen[v] = true
+					switch x := v.(type) {
+					case *ssa.Convert:
+						walk(x.X, d+1)
+					case *ssa.ChangeType:
+						walk(x.X, d+1)
+					case *ssa.BinOp:
+						walk(x.X, d+1)
+						walk(x.Y, d+1)
+					case *ssa.Phi:
+						for _, e := range x.Edges {
+							walk(e, d+1)
+						}
+					case *ssa.Call:
+						if isTr(x.Call.Value) {
+							if loop.body[x.Block()] {
+								found = true
+							} else {
+								hoisted = true
+							}
+						}
+					}
+				}
+				walk(mu.Key, 0)
+				switch {
+				case found:
+					r.OK("percode", key, w.Pos(mu.Pos()), "translated in the same iteration")
+				case hoisted:
+					r.Fail("percode", key, w.Pos(mu.Pos()), "the code-to-rune function is called once outside the loop and the keys are obtained by adding the loop index to its result: the translation (Mac Roman) is not linear, so every code above the first is mapped to the wrong character", nil)
+				default:
+					r.Fail("percode", key, w.Pos(mu.Pos()), "the key stored does not pass through the code-to-rune function: codes of a Macintosh subtable are taken for Unicode", nil)
+				}
+			}
+		}
+	}
+	r.Floor("percode", 3)
+	_ = n
+}
